@@ -4,13 +4,16 @@
 import json, os, subprocess, sys
 import concurrent.futures as cf
 SRC = sys.argv[1] if len(sys.argv) > 1 else "/verif/seeded_incoming"
+ONLY = sys.argv[2:]           # optional prefixes of the incoming directory names (e.g. r2c)
+REPO = os.environ.get("VERIF_REPO", "/repo")   # the checks honour the same variable
+import re
 props = [f"C{i:02d}" for i in range(1, 21)]
 out = {}
-mp = "/verif/seeded/MATRIX.json"
+mp = os.environ.get("MATRIX", "/verif/seeded/MATRIX.json")
 os.makedirs("/verif/seeded", exist_ok=True)
 if os.path.exists(mp):
     out = json.load(open(mp))
-st = subprocess.run(["git", "-C", "/repo", "status", "--porcelain", "--untracked-files=no"], capture_output=True, text=True).stdout.strip()
+st = subprocess.run(["git", "-C", REPO, "status", "--porcelain", "--untracked-files=no"], capture_output=True, text=True).stdout.strip()
 if st:
     print("refusing: /repo dirty"); sys.exit(2)
 for prop in sorted(os.listdir(SRC)):
@@ -22,16 +25,19 @@ for prop in sorted(os.listdir(SRC)):
         patch = os.path.join(d, "patch.diff")
         if not os.path.exists(patch):
             continue
-        sid = f"{prop.upper()}-{n}" if not prop[0].isupper() else prop
+        if ONLY and not any(prop.startswith(o) for o in ONLY):
+            continue
+        pid = "C" + re.sub(r"\D", "", prop[-2:]).zfill(2)
+        sid = f"{pid}-{n}" if not prop.startswith("r2") else f"{pid}-r2-{n}"
         if sid in out and not os.environ.get("FORCE"):
             continue
-        r = subprocess.run(["git", "-C", "/repo", "apply", patch], capture_output=True, text=True)
+        r = subprocess.run(["git", "-C", REPO, "apply", patch], capture_output=True, text=True)
         if r.returncode != 0:
-            subprocess.run(["git", "-C", "/repo", "checkout", "--", "."])
-            r = subprocess.run(["patch", "-p1", "-F3", "--no-backup-if-mismatch", "-d", "/repo", "-i", patch], capture_output=True, text=True)
+            subprocess.run(["git", "-C", REPO, "checkout", "--", "."])
+            r = subprocess.run(["patch", "-p1", "-F3", "--no-backup-if-mismatch", "-d", REPO, "-i", patch], capture_output=True, text=True)
         if r.returncode != 0:
             out[sid] = {"error": "patch does not apply"}
-            subprocess.run(["git", "-C", "/repo", "checkout", "--", "."])
+            subprocess.run(["git", "-C", REPO, "checkout", "--", "."])
             continue
         row = {}
         try:
@@ -45,8 +51,8 @@ for prop in sorted(os.listdir(SRC)):
                 row.update(ex.map(one, props[1:]))
             row = {p: row[p] for p in props}
         finally:
-            subprocess.run(["git", "-C", "/repo", "reset", "-q"])
-            subprocess.run(["git", "-C", "/repo", "checkout", "--", "."])
+            subprocess.run(["git", "-C", REPO, "reset", "-q"])
+            subprocess.run(["git", "-C", REPO, "checkout", "--", "."])
         out[sid] = row
         json.dump(out, open(mp, "w"), indent=1)
         own = row.get(sid.split("-")[0], {}).get("result")
